@@ -139,19 +139,36 @@ def relations(ctx, npts):
     ctx.claim('parseval', ctx.poly_small(tot - dt * dt * N * e, 1e-12 * dt * dt * N * npts * 900.0))
 
 
-def inverse(ctx, N, stype=None):
+def inverse(ctx, N, stype=None, cached=False):
     """fas2values / fas2signal on the one-sided spectrum of a symbolic record of length N."""
     lib = ctx.lib
     a = ctx.arr('a', N, -100.0, 100.0)
     dt = 0.02
     sig = lib.Signal(a, dt)
-    F, fr = lib.fns.frequency.calc_fa_spectrum(sig, n=N)
+    if cached:
+        # the object's own cached spectrum (N points requested), handed to the inverse helper as users do
+        sig.gen_fa_spectrum(n=N)
+        F = sig.fa_spectrum
+    else:
+        F, fr = lib.fns.frequency.calc_fa_spectrum(sig, n=N)
+    keep = [(x.re + 0.0, x.im + 0.0) if isinstance(x, S.SC) else x for x in F]
     if stype is None:
         out = lib.fns.frequency.fas2values(F, dt)
     else:
         s2 = lib.fns.frequency.fas2signal(F, dt, stype=stype)
         ctx.claim('requested_type', isinstance(s2, lib.AccSignal if stype != 'signal' else lib.Signal))
         out = s2.values
+    # the helper must not write into the spectrum it was given (the object hands out its cached array)
+    after = sig.fa_spectrum if cached else F
+    same = [len(after) == len(keep)]
+    for k in range(min(len(after), len(keep))):
+        x, y = after[k], keep[k]
+        if isinstance(y, tuple):
+            xr, xi = (x.re, x.im) if isinstance(x, S.SC) else (x.real if not S.is_sym(x) else x, x.imag if not S.is_sym(x) else 0.0)
+            same.append(S.sym_and(ctx.eq(xr, y[0], 1e3), ctx.eq(xi, y[1], 1e3)))
+        else:
+            same.append(ctx.eq(x, y, 1e3))
+    ctx.claim('spectrum_argument_and_cached_spectrum_unchanged', S.sym_and(*same))
     ctx.observe('len', len(out))
     n2 = 2 * len(F)
     ctx.claim('reconstruction_has_padded_length', len(out) == n2, (len(out), n2))
@@ -229,6 +246,9 @@ def obligations(tier, seed):
         yield Ob('inverse', {'N': N}, query_ms=60000)
     for st in ('signal', 'acc'):
         yield Ob('inverse', {'N': 6, 'stype': st}, query_ms=60000)
+        yield Ob('inverse', {'N': 8, 'stype': st, 'cached': True}, query_ms=60000)
+    for N in (4, 6):
+        yield Ob('inverse', {'N': N, 'cached': True}, query_ms=60000)
     for npts in (2, 3, 4):
         yield Ob('dominant', {'npts': npts}, query_ms=30000, timeout_s=300)
     for npts, sup in (((7, [0, 3]), (8, [1, 2]), (6, [0, 5])) if q else ((7, [0, 3]), (8, [1, 2]), (6, [0, 5]), (7, [0, 2, 5]), (13, [1, 6]))):
